@@ -21,6 +21,7 @@ static int cur = -1;
 static bool on = false;
 static const uint8_t *ch = nullptr;
 static size_t chn = 0, chi = 0, nsw = 0, npts = 0;
+static std::vector<uint8_t> wid;                          // number of alternatives at every consumed choice
 static std::map<const void *, int> owner;                // mutex -> tid (absent = free)
 static std::map<const void *, std::deque<int>> waiters;  // cv -> tids
 static thread_local Th *me = nullptr;
@@ -64,6 +65,7 @@ static int pick(bool self_ok) {
     for (Th *t : ths) if (t->id != cur && n < 64 && enabled(t)) en[n++] = t->id;
     if (n == 0) deadlock();
     if (n == 1) return en[0];
+    wid.push_back((uint8_t)n);
     return en[next_choice() % n];
 }
 static void switch_to(int nxt, bool park_self) {
@@ -80,7 +82,7 @@ static void block() { switch_to(pick(false), true); }
 
 void begin(const uint8_t *c, size_t n) {
     ths.clear(); owner.clear(); waiters.clear();
-    ch = c; chn = n; chi = 0; nsw = 0; npts = 0;
+    ch = c; chn = n; chi = 0; nsw = 0; npts = 0; wid.clear();
     Th *t = new Th; t->id = 0; sem_init(&t->sem, 0, 0); t->real = pthread_self();
     ths.push_back(t); me = t; cur = 0; on = true;
 }
@@ -100,6 +102,7 @@ const void *blocked_on(int tid) { return ths[tid]->obj; }
 size_t choices_used() { return chi; }
 size_t switches() { return nsw; }
 size_t points() { return npts; }
+const std::vector<uint8_t> &widths() { return wid; }
 
 static void *tramp(void *p) {
     Th *t = (Th *)p; me = t;
@@ -182,6 +185,7 @@ int pthread_cond_signal(pthread_cond_t *c) {
     point();
     auto &w = waiters[c];
     if (!w.empty()) {
+        if (w.size() > 1) wid.push_back((uint8_t)w.size());
         size_t k = w.size() > 1 ? next_choice() % w.size() : 0;
         int id = w[k]; w.erase(w.begin() + (long)k);
         wake(c, id);
